@@ -24,6 +24,10 @@ TIMES = 'history/times.py'; HFILES = 'history/files.py'; TNETS = 'server/tnetstr
 POLL = 'server/enip/poll.py'; DEFAULTS = 'server/enip/defaults.py'; NETWORK = 'server/network.py'
 
 VARIANTS = [
+    V( 'tnet-list-elements-default-encoding', TNETS, "payload = b''.join( dump(i, encoding=encoding) for i in data )", "payload = b''.join( map( dump, data ))", fires=[ 'T-TNET' ] ),
+    V( 'tnet-list-parse-default-encoding', TNETS, "value, extra = parse(extra, encoding=encoding)\n result.append(value)", "value, extra = parse(extra)\n        result.append(value)", fires=[ 'T-TNET' ] ),
+    V( 'tnet-empty-payload-text', TNET, "src = b'' if raw not in data else (\n data[raw].tostring() if sys.version_info[0] < 3\n else data[raw].tobytes() )", "src			= data[raw].tobytes() if raw in data else ''", fires=[ 'T-TNET' ] ),
+    V( 'tnet-empty-payload-bytes-py3-only', TNET, "src = b'' if raw not in data else (\n data[raw].tostring() if sys.version_info[0] < 3\n else data[raw].tobytes() )", "src			= data[raw].tobytes() if raw in data else b''", silent=[ 'T-TNET' ] ),
     V( 'limit-default-moved-into-helper', MODBUS, "def shatter( address, count, limit=None ):", "def transfer_limit( address ):\n    if ( 1 <= address <= 9999 or 10001 <= address <= 19999 or 100001 <= address <= 165536 ):\n        return 1968\n    return 123\n\n\ndef shatter_( address, count, limit=None ):\n    if not limit or limit < 0:\n        limit = transfer_limit( address )\n    while count:\n        taken = min( count, limit or count )\n        yield (address,taken)\n        address += taken\n        count -= taken\n\n\ndef shatter( address, count, limit=None ):", silent=[ 'M-LIMIT' ], why='a helper next to shatter leaves shatter itself unchanged: stays decided' ),
     V( 'ncp-decode-shift-in-a-local', DEFAULTS, "parameters = dotdict(\n size = self._NCP & ( 0xFFFF if self._large else 0x01FF ),\n variable = 0b01 & self._NCP >> ( 9 + ( 16 if self._large else 0 )),", "shift			= 16 if self._large else 0\n        parameters		= dotdict(\n            size	= self._NCP & ( 0xFFFF if self._large else 0x01FF ),\n            variable	= 0b01 & self._NCP >> (  9 + shift ),", silent=[ 'T-NCP' ] ),
     V( 'optext-tag-not-stripped', CLIENT, "device.parse_path_elements( tag.strip() )", "device.parse_path_elements( tag )", fires=[ 'T-OPTEXT' ] ),
